@@ -292,6 +292,14 @@ func (t *Dense) SliceInto(view *Dense, slices ...Slice) (retVal View, err error)
 
 	view.AP.zero()
 
+	// a transposition that was pending on view (or on t, when t is narrowed into itself) described
+	// the access pattern that has just been replaced
+	if !view.old.IsZero() {
+		view.old.zero()
+		ReturnInts(view.transposeWith)
+		view.transposeWith = nil
+	}
+
 	view.t = t.t
 	view.e = t.e
 	view.oe = t.oe
@@ -302,6 +310,8 @@ func (t *Dense) SliceInto(view *Dense, slices ...Slice) (retVal View, err error)
 
 	if t.IsMasked() {
 		view.mask = t.mask[ndStart:ndEnd]
+	} else {
+		view.mask = nil
 	}
 
 	return view, err
